@@ -238,6 +238,16 @@ def run_case(ctx, case):
     Li.expect(SubI, A, True, "instance made of a user subclass of Operation vs plain", None)
     Li.expect(SubI, SubM, False, what + " (instances made of a user subclass of Operation)", None)
     ctx.count("user_subclass_of_operation_checks")
+    # machine lists given in another order: whether the order matters is the library's choice, but
+    # the choice cannot depend on which ids are involved
+    answers = {}
+    for p_, q_ in ((0, 1), (1, 8), (0, 8), (3, 10), (2, 9), (7, 16), (5, 33)):
+        x, y = Operation([p_, q_], 3), Operation([q_, p_], 3)
+        answers[(p_, q_)] = (x == y)
+    ctx.count("machine_order_sensitivity_checks")
+    if len(set(answers.values())) > 1:
+        ctx.violation("c15_machine_order_matters_for_some_ids_only",
+                      {"equal_when_reordered": {str(k): v for k, v in answers.items()}})
     # ---------------------------------------------------------------- instances
     L = Laws(ctx, "instance")
     L.expect(A, B, True, "independent copy (other name)", None)
@@ -352,6 +362,16 @@ def run_case(ctx, case):
     ctx.count("standard_protocol_copies_of_schedules")
     partial = build_schedule(inst, B, hist[:-1])
     L.expect(SA, partial, False, "one operation missing", None)
+    if case["seed"] % 4 == 1:
+        # two runs of the same deterministic rule solver (solver(instance): the result carries run
+        # statistics such as the elapsed time in its metadata)
+        from job_shop_lib.dispatching.rules import DispatchingRuleSolver
+        sv = DispatchingRuleSolver("most_work_remaining", "first")
+        R1, R2, R3 = sv(A), sv(B), DispatchingRuleSolver("most_work_remaining", "first")(C)
+        L.expect(R1, R2, True, "two runs of a deterministic solver", None)
+        if R1 == R2 and R2 == R3 and not (R1 == R3):
+            ctx.violation("c15_not_transitive", {"kind": "schedule", "what": "solver runs"})
+        ctx.count("solver_run_pairs")
     # a refused `add` (overlap with the last operation of the machine), caught by the caller, leaves
     # the schedule equal to its twin
     tw1, tw2 = build_schedule(inst, B, hist[:-1]), build_schedule(inst, C, hist[:-1])
